@@ -303,7 +303,9 @@ class Composite(LexicalParent[Node], HasCreator, Node, ABC):
                     for parent_panel in self.parent._static_io_panels()[:-2]:
                         for parent_channel in parent_panel:
                             if parent_channel.value_receiver is original_channel:
-                                parent_channel.value_receiver = new_channel
+                                # Re-point only: the setter would push the parent's value
+                                # into the inputs this node was just computed with
+                                parent_channel._value_receiver = new_channel
 
     @staticmethod
     def _replace_connection(channel, old_connection, new_connection):
